@@ -136,6 +136,10 @@ sim::Json generate(const std::string& tier, uint64_t seed, uint64_t index) {
   sim::Json sc = base(pattern, rng.chance(0.3));
   sc.ref("script").set("solve_iters", (long)rng.range(1, 4));
   if (rng.chance(0.3)) { static const char* ans[] = {"F", "FT", "TF", "TTF", "FFT"}; sc.ref("script").set("cb_answers", ans[rng.below(5)]); }   // a callback that says "not running"
+  if (rng.chance(0.15)) {     // registrations without data (a null pointer is a valid thing to register)
+    sim::Json& regs = sc.ref("script").ref("registrations");
+    for (size_t q = 0; q < regs.size(); ++q) if (rng.chance(0.7)) regs.arr()[q].set("null", true);
+  }
   const Census& c = census_of(pattern);
   int nsig = 1 + (int)rng.below(3);
   std::map<std::string, int> seen;
